@@ -122,6 +122,38 @@ pub struct CaseLine {
 	pub ms: u64,
 }
 
+/// Fingerprint of everything a judged case produced (for the determinism self-test).
+pub fn fingerprint(j: &Judged) -> u64 {
+	let mut h: u64 = 0xcbf29ce484222325;
+	let mut eat = |b: &[u8]| {
+		for x in b {
+			h ^= *x as u64;
+			h = h.wrapping_mul(0x100000001b3);
+		}
+	};
+	eat(&j.sig.to_le_bytes());
+	eat(&j.evaluations.to_le_bytes());
+	eat(&[j.nontrivial as u8]);
+	for (k, v) in &j.counters {
+		eat(k.as_bytes());
+		eat(&v.to_le_bytes());
+	}
+	for (k, v) in &j.sets {
+		eat(k.as_bytes());
+		for x in v {
+			eat(x.as_bytes());
+		}
+	}
+	if let Some(v) = &j.violation {
+		eat(v.class.as_bytes());
+		// paths and inode numbers in details differ between processes: class + explanation only
+		if let Some(e) = &v.explained {
+			eat(e.as_bytes());
+		}
+	}
+	h
+}
+
 pub fn verif_seed() -> u64 {
 	std::env::var("VERIF_SEED").ok().and_then(|s| s.parse().ok()).unwrap_or(1)
 }
